@@ -65,6 +65,7 @@ struct Case {
     raw: Value,
     rule: Value,
     data: Value,
+    helper: Option<(String, Vec<Value>)>,
 }
 
 fn load_cases(path: &str) -> Vec<Case> {
@@ -78,7 +79,15 @@ fn load_cases(path: &str) -> Vec<Case> {
         let raw: Value = serde_json::from_str(&line).unwrap_or_else(|e| die(&format!("{} line {}: torn or invalid JSON: {}", path, idx + 1, e)));
         let rule = aj::from_aj(&raw["rule"]).unwrap_or_else(|e| die(&format!("{} line {}: rule: {}", path, idx + 1, e)));
         let data = aj::from_aj(&raw["data"]).unwrap_or_else(|e| die(&format!("{} line {}: data: {}", path, idx + 1, e)));
-        out.push(Case { idx, raw, rule, data });
+        let helper = match raw.get("fn").and_then(|f| f.as_str()) {
+            Some(f) => {
+                let args = raw["args"].as_array().unwrap_or_else(|| die("helper case without args"));
+                let vals: Vec<Value> = args.iter().map(|a| aj::from_aj(a).unwrap_or_else(|e| die(&format!("{} line {}: arg: {}", path, idx + 1, e)))).collect();
+                Some((f.to_string(), vals))
+            }
+            None => None,
+        };
+        out.push(Case { idx, raw, rule, data, helper });
     }
     out
 }
@@ -108,7 +117,10 @@ fn cmd_replay(args: &[String]) {
             .stack_size(stack)
             .spawn(move || {
                 for i in start..cs.len() {
-                    let o = run::run_apply(&cs[i].rule, &cs[i].data);
+                    let o = match &cs[i].helper {
+                        Some((f, args)) => helpers::run_helper(f, args).unwrap_or_else(|e| die(&e)),
+                        None => run::run_apply(&cs[i].rule, &cs[i].data),
+                    };
                     if tx.send((i, o)).is_err() {
                         return;
                     }
@@ -162,7 +174,7 @@ fn cmd_replay(args: &[String]) {
                         None => {
                             matched += 1;
                             if samples.len() < nsamples {
-                                samples.push(json!({"rule": c.rule.to_string(), "data": c.data.to_string(), "outcome": run::outcome_plain(&o)}));
+                                samples.push(json!({"rule": case_text(c), "data": c.data.to_string(), "outcome": run::outcome_plain(&o)}));
                             }
                         }
                         Some(why) => {
@@ -175,7 +187,8 @@ fn cmd_replay(args: &[String]) {
                                 "line": c.idx + 1, "id": c.raw.get("id").cloned().unwrap_or(Value::Null),
                                 "kind": if o.crash.is_some() {"crash"} else {"mismatch"},
                                 "why": why, "sc": sc_override.clone().unwrap_or_else(|| c.raw.get("sc").cloned().unwrap_or(json!([]))),
-                                "rule": c.rule.to_string(), "data": c.data.to_string(),
+                                "rule": case_text(c), "data": c.data.to_string(),
+                                "entry": if c.helper.is_some() {"helper"} else {"apply"},
                                 "expected": plain_exp(&c.raw["exp"]), "actual": run::outcome_plain(&o),
                                 "profile": profile(),
                                 "case": c.raw.clone(),
@@ -211,6 +224,13 @@ fn cmd_replay(args: &[String]) {
     out.flush().unwrap();
     if hung > 0 {
         std::process::exit(0); // stuck threads would block a normal return
+    }
+}
+
+fn case_text(c: &Case) -> String {
+    match &c.helper {
+        Some((f, args)) => format!("js_op::{}({})", f, args.iter().map(|a| a.to_string()).collect::<Vec<_>>().join(", ")),
+        None => c.rule.to_string(),
     }
 }
 
